@@ -76,10 +76,13 @@ def build_w2c2(cfg='plain', defs=None, cc='gcc', extra_flags=None, rename_main=F
         if r.returncode != 0:
             raise RuntimeError('cannot link w2c2: %s' % r.stderr.decode()[-2000:])
     open(stamp, 'w').close()
-    # keep the cache small: drop older builds of the same cfg
+    # keep the cache small, but never pull a build from under a concurrent run: drop builds of this cfg older than 3 hours
     for old in glob.glob(os.path.join(BUILD, 'impl', cfg + '-*')):
-        if old != d:
-            shutil.rmtree(old, ignore_errors=True)
+        try:
+            if old != d and time.time() - os.path.getmtime(os.path.join(old, '.done')) > 3 * 3600:
+                shutil.rmtree(old, ignore_errors=True)
+        except OSError:
+            pass
     return d if objects_only else exe
 
 
